@@ -9,7 +9,7 @@ import (
 func init() {
 	register(&propInfo{
 		ID:          "C09",
-		Explanation: "Decides the structural presence rules: (T.ptr) PointerWrapper.Omit/Size/Append never consult the pointee's Omit and pass the tag through unchanged (a present zero keeps its tag), and PointerWrapper.Read allocates under the nil test and always delegates, returning exactly the delegated Read's results (no early return on empty data); (T.null.omit) for every codec of package null Omit is the negation of the Valid flag and nothing else; (T.null.read) every success return of their Read is dominated by a store of true to Valid or a SetValid call; (T.presence) Descriptor() sets ExplicitPresence for exactly PointerWrapper and the null codecs; (X.clear.mapslot) a map entry without a value resets the slot mapassign returned, so an encoded nil reads back nil even into a map that already holds the key; (X.entry.presence) the branch of readMapEntry that treats the value as absent is controlled by a test of the tag index, not by the remaining length alone (the key is omitted when zero and a present value may have an empty body: D19, fixed); (X.clear.*) decode targets in re-used slices/pools are cleared before a codec reads into them; (T.nested-presence, T.ptr-repeated) PointerWrapper is built only around a codec that has no presence of its own and that writes something for an empty value (today neither holds: known findings D32, D46).",
+		Explanation: "Decides the structural presence rules: (T.ptr) PointerWrapper.Omit/Size/Append never consult the pointee's Omit and pass the tag through unchanged (a present zero keeps its tag), and PointerWrapper.Read allocates under the nil test and always delegates, returning exactly the delegated Read's results (no early return on empty data); (T.null.omit) for every codec of package null Omit is the negation of the Valid flag and nothing else; (T.null.read) every success return of their Read is dominated by a store of true to Valid or a SetValid call; (T.presence) Descriptor() sets ExplicitPresence for exactly PointerWrapper and the null codecs; (X.clear.mapslot) a map entry without a value resets the slot mapassign returned, so an encoded nil reads back nil even into a map that already holds the key; (X.entry.presence) the branch of readMapEntry that treats the value as absent is controlled by a test of the tag index, not by the remaining length alone (the key is omitted when zero and a present value may have an empty body: D19, fixed); (X.clear.*) decode targets in re-used slices/pools are cleared before a codec reads into them; (T.nested-presence, T.ptr-repeated) PointerWrapper is built only around a codec that has no presence of its own and that writes something for an empty value (today neither holds: known findings D32, D46); (T.slice-presence) the slice wrappers are built with the element codec's explicit presence looked at (today only the fixed-width one is: known finding D48, null types as slice elements); (X.tightguard) count and length guards of the map, slice and struct readers reject only what cannot fit, so a one-byte entry is not turned away.",
 		NotDecided:  "Value-level round trips; that user-supplied codecs with an empty body behave (A4).",
 		Assumptions: []string{"A5"},
 		Run: func(c *Ctx) {
@@ -29,10 +29,18 @@ func init() {
 			// presence in the walker's output: null exactly for an absent value that can be absent
 			ruleNullOnlyForPresence(c)
 			ruleDelegateNonEmpty(c)
+			// null types as slice elements (known finding D48)
+			ruleSlicePresence(c)
 			// stale memory in a re-used slot reads an encoded nil back as the old non-nil pointer
 			ruleClearBeforeRead(c)
 			// a present value stays on the wire even when its body is empty: the tagged form always writes the tag
 			ruleFrame(c)
+			// an entry or element whose key and value are both absent/zero is one byte long: a count or length
+			// guard that asks for more per entry turns such a map or slice away
+			ruleTightGuards(c, decodeBound(c.P), func(n string) bool {
+				return strings.Contains(n, "MapCodec") || strings.Contains(n, "SliceWrapper") || strings.Contains(n, "StructCodec")
+			})
+			c.Floor("X.tightguard", 5)
 		},
 	})
 	register(&propInfo{
